@@ -181,6 +181,36 @@ pub fn run(tier: Tier, seed: u64) -> i32 {
         stats.space(json!({"space": sp.name, "cases": after - before, "what": sp.describe}));
         eprintln!("  [{}] {} cases, t={:.1}s", sp.name, after - before, stats.elapsed());
     }
+    // loaded from disk: blank and comment-only files, and every lexeme variant once more
+    {
+        let mut texts: Vec<(String, String)> = ["", " ", "\n\n", "\t\r\n", "// only a comment", "/* c */\n", "\u{feff}", "package p;"]
+            .iter()
+            .enumerate()
+            .map(|(k, t)| (format!("blank-{k}"), t.to_string()))
+            .collect();
+        let lv = seqspace::lexeme_variants();
+        for i in 0..lv.n {
+            texts.push((lv.gen)(i));
+        }
+        let before = stats.states.load(std::sync::atomic::Ordering::Relaxed);
+        super::drive(
+            &stats,
+            texts.len(),
+            1,
+            |i| {
+                Some(Case {
+                    prop: PROP.into(),
+                    kind: "ADD-FILE".into(),
+                    label: format!("add_file: {}", texts[i].0),
+                    files: vec![("@file:f".into(), texts[i].1.clone())],
+                    expect: json!(null),
+                })
+            },
+            check_case,
+        );
+        let after = stats.states.load(std::sync::atomic::Ordering::Relaxed);
+        stats.space(json!({"space": "ADD-FILE", "cases": after - before, "what": "blank / comment-only files and every lexeme variant, loaded with add_file"}));
+    }
     // the well-formed corpus: every document of the C02 space in its default layout
     {
         let ds = super::docspace::c02_space(tier);
